@@ -1,5 +1,5 @@
 #!/bin/bash
-# builds the three cargo-fuzz targets (offline, sanitizer none: the crate has no unsafe code)
+# builds the four cargo-fuzz targets (offline, sanitizer none: the crate has no unsafe code)
 set -eu
 cd "$(dirname "$(readlink -f "$0")")"
 export CARGO_NET_OFFLINE=true
